@@ -3,7 +3,16 @@
 // from_deserialized (src/graph_impl/serialization.rs).  `DeserGraph` is taken as the deserialiser hands it over.
 // ======================================================================================
 
-//@ item src/graph_impl/serialization.rs | - | struct SerGraph
+// The deserialiser helpers named in DeserGraph's #[serde(deserialize_with = ..)] attributes are outside the verifier's subset; what they
+// guarantee (fresh nodes carry next == [end, end]; a non-empty node_holes list is refused) was READ OFF their text and is assumed by
+// FromDeserialized::input_ok.  They are pinned by hash: a change to them is a conflict (exit 2), never silently accepted.
+//@ pin src/graph_impl/serialization.rs | - | fn deser_graph_nodes | 2196f5cbd5
+//@ pin src/graph_impl/serialization.rs | - | fn deser_graph_node_holes | 5c935bee34
+//@ pin src/graph_impl/serialization.rs | - | fn deser_graph_edges | 8c3e4cbf94
+//@ pin src/graph_impl/serialization.rs | - | fn ser_graph_nodes | 17d0011307
+//@ pin src/graph_impl/serialization.rs | - | fn ser_graph_edges | 346de0f650
+
+//@ item src/graph_impl/serialization.rs | - | struct SerGraph | serde=0a834cf313
 /// Serialization representation for Graph
 /// Keep in sync with deserialization and StableGraph
 pub struct SerGraph<'a, N: 'a, E: 'a, Ix: 'a + IndexType> {
@@ -14,7 +23,7 @@ pub struct SerGraph<'a, N: 'a, E: 'a, Ix: 'a + IndexType> {
 }
 //@ end
 
-//@ item src/graph_impl/serialization.rs | - | struct DeserGraph
+//@ item src/graph_impl/serialization.rs | - | struct DeserGraph | serde=cd0004a3d5
 // Deserialization representation for Graph
 // Keep in sync with serialization and StableGraph
 pub struct DeserGraph<N, E, Ix> {
